@@ -266,13 +266,17 @@ def openTmp (cfg : Cfg) (fs : FS) (id : Nat) (dir : Path) (falloc : Bool) (name 
     let t := dir ++ [name]
     (.path t, mkdirAll fs dir ++ [.creat t] ++ (if falloc then [.falloc (.path t)] else []))
 
+/-- os.Remove(objPath) -/
+def rmAt (fs : FS) (obj : Path) : List Step :=
+  match fs.get obj with
+  | some (.file ..) => [.unlink obj]
+  | some (.dir _) => [.rmdir obj]
+  | none => []
+
 /-- tmpfile.link: os.Remove(objPath) — in BOTH strategies — then MkdirAll(parent), then linkat, or
     fchmod + rename for a named temp file. -/
 def publish (fs : FS) (r : Ref) (obj : Path) : List Step :=
-  let rm : List Step := match fs.get obj with
-    | some (.file ..) => [.unlink obj]
-    | some (.dir _) => [.rmdir obj]
-    | none => []
+  let rm := rmAt fs obj
   let mk := mkdirAll (run rm fs) obj.dropLast
   rm ++ mk ++ (match r with
     | .anon id => [.link id obj]
